@@ -12,8 +12,19 @@ static char line[1 << 21], a1[1 << 20], a2[1 << 20];
 static unsigned char b1[1 << 19], b2[1 << 19];
 
 static void *dupbuf(const unsigned char *p, size_t n) { unsigned char *q = malloc(n ? n : 1); memcpy(q, p, n); return q; }
-static char *dupstr(const unsigned char *p, size_t n) { char *q = malloc(n + 1); memcpy(q, p, n); q[n] = 0; return q; }
-static void scribble_free(void *p, size_t n) { memset(p, 0x5A, n); free(p); }
+/* strings (names above all) are handed in from addresses of varying alignment - offsets 0..3 in turn inside their block: the
+   table is a function of the bytes of a name, not of where the caller keeps it */
+static struct { void *p, *base; } dreg[16];
+static char *dupstr(const unsigned char *p, size_t n) {
+    static unsigned ctr; char *b = malloc(n + 1 + 4), *q = b + (ctr++ & 3); memcpy(q, p, n); q[n] = 0;
+    for (int i = 0; i < 16; i++) if (!dreg[i].p) { dreg[i].p = q; dreg[i].base = b; return q; }
+    memmove(b, q, n + 1); return b;
+}
+static void scribble_free(void *p, size_t n) {
+    memset(p, 0x5A, n);
+    for (int i = 0; i < 16; i++) if (p && dreg[i].p == p) { free(dreg[i].base); dreg[i].p = NULL; return; }
+    free(p);
+}
 static const char *ename(int e) { return e == EINVAL ? "EINVAL" : e == ENOENT ? "ENOENT" : e == ENOMEM ? "ENOMEM" : e == 0 ? "E0" : "E?"; }
 
 /* node numbering: pointer -> id.  Two small open-addressing maps: the one built by the previous dump (the nodes alive
